@@ -2,6 +2,7 @@ CONSTANTS
   MaxSize = 24
   Prof <- ProfShadow
   MathTable <- NoTable
+  GenBackend = "any"
 INIT GInit
 NEXT GNext
 INVARIANT ExportVariants
